@@ -3,6 +3,7 @@ import RocflModel.Commit
 import RocflModel.ValidateNums
 import RocflModel.Validator
 import RocflModel.InvCheck
+import RocflModel.Cli
 /-
   Driver side of the physical-layer protocol: prints the model's install-phase scripts and runs the
   Lean trace monitors on observed traces.
@@ -94,6 +95,36 @@ def parseAInv (a : List String) : Option InvCheck.AInv :=
   | _ => none
 
 def b01 (b : Bool) : String := if b then "1" else "0"
+
+def optHexC : Option Str → String
+  | some s => encodeArg s
+  | none => "~"
+
+def plainOr (d : String) : Option Str → String
+  | some s => String.ofList s
+  | none => d
+
+/-- the harness request line of a library call (`~` = option absent) -/
+def showCliCall : Cli.Call → String
+  | .createObject id spec alg cd w => s!"new {encodeArg id} {String.ofList alg} {encodeArg cd} {String.ofList w} {plainOr "-" spec}"
+  | .copyExternal id srcs dst r => s!"cpx {encodeArg id} {b01 r} {encodeArg dst} " ++ " ".intercalate (srcs.map encodeArg)
+  | .copyInternal id v srcs dst r => s!"cpi {encodeArg id} {plainOr "-" v} {b01 r} {encodeArg dst} " ++ " ".intercalate (srcs.map encodeArg)
+  | .moveExternal id srcs dst => s!"mvx {encodeArg id} {encodeArg dst} " ++ " ".intercalate (srcs.map encodeArg)
+  | .moveInternal id srcs dst => s!"mvi {encodeArg id} {encodeArg dst} " ++ " ".intercalate (srcs.map encodeArg)
+  | .removeFiles id ps r => s!"rm {encodeArg id} {b01 r} " ++ " ".intercalate (ps.map encodeArg)
+  | .reset id ps r => s!"resetp {encodeArg id} {b01 r} " ++ " ".intercalate (ps.map encodeArg)
+  | .resetAll id => s!"resetall {encodeArg id}"
+  | .commit id root u a m c p => s!"commit {encodeArg id} {optHexC root} {optHexC u} {optHexC a} {optHexC m} {plainOr "-" c} {b01 p}"
+  | .upgradeObject id spec u a m c p => s!"upgrade {encodeArg id} {String.ofList spec} {optHexC u} {optHexC a} {optHexC m} {plainOr "-" c} {b01 p}"
+  | .upgradeRepo spec => s!"upgraderepo {String.ofList spec}"
+  | .purge id => s!"purge {encodeArg id}"
+  | .catFile id v path => s!"cat {encodeArg id} {plainOr "-" v} {encodeArg path}"
+  | .catStaged id path => s!"cat {encodeArg id} S {encodeArg path}"
+
+def csv (s : String) : List Str := if s == "-" then [] else (s.splitOn ",").map String.toList
+
+/-- `E001,E002` | `-` | `!` (the library call failed) -/
+def parseVRes (s : String) : Option Cli.VResult := if s == "!" then none else some { errors := csv s }
 
 def physStep (op : String) (a : List String) : String :=
   match op, a with
@@ -187,6 +218,19 @@ def physStep (op : String) (a : List String) : String :=
     match c? with
     | some c => "ok " ++ ",".intercalate (Validator.expectedCodes c (fx == "1"))
     | none => "bad-arg"
+  | "script-translate", args =>
+    match args.mapM decodeArg with
+    | none => "bad-arg"
+    | some argv =>
+      match Cli.translate argv with
+      | some c => "ok " ++ showCliCall c
+      | none => "ok usage"
+  -- script-vexit objects <se> <result>*   |   script-vexit repo <se> <root> <hier> <result>*
+  | "script-vexit", "objects" :: se :: rs => s!"ok {Cli.validateObjectsExit (csv se) [] (rs.map parseVRes)}"
+  | "script-vexit", "repo" :: se :: root :: hier :: rs =>
+    match parseVRes root, parseVRes hier with
+    | some r, some h => s!"ok {Cli.validateRepoExit (csv se) [] r h (rs.map parseVRes)}"
+    | _, _ => "bad-arg"
   | "script-invcheck", args =>
     match parseAInv args with
     | none => "bad-arg"
